@@ -622,3 +622,12 @@ package bigbuff
 //@   modular
 //@   requires wired : fn != nil
 //@   ensures onlyiffn : ret ==> lastres(fn, 0)
+
+//@ func (*Channel).pending
+//@   props C13
+//@   inline
+//@   holds W : c.mutex
+
+//@ func (*Buffer).cleanup
+//@   props C04 C12 C01
+//@   loop WaitCond>0 invariant mon : inv(b.mutex) && heldW(b.mutex)
